@@ -5,8 +5,8 @@
 # usage: verify_mutation.sh <dir with patch.diff> <demo file> <dest path in repo> <cargo test args...>
 set -u
 DIR=$1; DEMO=$2; DEST=$3; shift 3
-WT=/tmp/wt/verify
-export CARGO_NET_OFFLINE=true CARGO_TARGET_DIR=/tmp/wt/verify-target
+WT=${WT:-/tmp/wt/verify}
+export CARGO_NET_OFFLINE=true CARGO_TARGET_DIR=${WT:-/tmp/wt/verify}-target
 LOG=$DIR/verify.log
 : > $LOG
 HEAD=$(git -C /repo rev-parse HEAD)
